@@ -202,6 +202,15 @@ var malformedDocs = []malformedDoc{
 	{"propfind-unparseable", "webdav", "PROPFIND", "coll", xmlHdr + `<D:propfind xmlns:D="DAV:"><D:prop><D:getetag>`, "application/xml"},
 	{"propfind-body-without-xml-type", "webdav", "PROPFIND", "coll", `<D:propfind xmlns:D="DAV:"><D:allprop/></D:propfind>`, "text/plain"},
 	{"proppatch-unparseable", "webdav", "PROPPATCH", "coll", `<<<`, "application/xml"},
+	// ill-formed in ways a lenient (non-strict, HTML-entity) XML reader forgives
+	{"mkcol-undeclared-entity", "caldav", "MKCOL", "newcoll", xmlHdr + `<D:mkcol xmlns:D="DAV:" xmlns:C="` + nsCal + `"><D:set><D:prop><D:resourcetype><D:collection/><C:calendar/></D:resourcetype><D:displayname>a&nbsp;b</D:displayname></D:prop></D:set></D:mkcol>`, "application/xml"},
+	{"mkcol-mismatched-end-tag", "caldav", "MKCOL", "newcoll", xmlHdr + `<D:mkcol xmlns:D="DAV:" xmlns:C="` + nsCal + `"><D:set><D:prop><D:resourcetype><D:collection/><C:calendar/></D:resourcetype><D:displayname>x</D:displayName></D:prop></D:set></D:mkcol>`, "application/xml"},
+	{"mkcol-unquoted-attribute", "carddav", "MKCOL", "newcoll", xmlHdr + `<D:mkcol xmlns:D="DAV:" xmlns:A="` + nsCard + `"><D:set><D:prop><D:resourcetype><D:collection/><A:addressbook/></D:resourcetype><D:displayname lang=en>x</D:displayname></D:prop></D:set></D:mkcol>`, "application/xml"},
+	{"mkcol-valueless-attribute", "carddav", "MKCOL", "newcoll", xmlHdr + `<D:mkcol xmlns:D="DAV:" xmlns:A="` + nsCard + `"><D:set><D:prop><D:resourcetype><D:collection/><A:addressbook/></D:resourcetype><D:displayname hidden>x</D:displayname></D:prop></D:set></D:mkcol>`, "application/xml"},
+	{"propfind-undeclared-entity", "webdav", "PROPFIND", "coll", xmlHdr + `<D:propfind xmlns:D="DAV:"><D:prop><D:getetag/>&nbsp;</D:prop></D:propfind>`, "application/xml"},
+	{"propfind-mismatched-end-tag", "caldav", "PROPFIND", "coll", xmlHdr + `<D:propfind xmlns:D="DAV:"><D:prop><D:getetag></D:getEtag></D:prop></D:propfind>`, "application/xml"},
+	{"report-unquoted-attribute", "carddav", "REPORT", "coll", xmlHdr + `<A:addressbook-query xmlns:D="DAV:" xmlns:A="` + nsCard + `"><D:prop><D:getetag/></D:prop><A:filter><A:prop-filter name=FN/></A:filter></A:addressbook-query>`, "application/xml"},
+	{"report-mismatched-end-tag", "caldav", "REPORT", "coll", xmlHdr + `<C:calendar-query xmlns:D="DAV:" xmlns:C="` + nsCal + `"><D:prop><D:getetag/></D:Prop><C:filter><C:comp-filter name="VCALENDAR"/></C:filter></C:calendar-query>`, "application/xml"},
 	// the shortest bodies there are: one byte
 	{"propfind-one-byte-not-xml-type", "webdav", "PROPFIND", "coll", "x", "text/plain"},
 	{"propfind-one-byte-not-xml-type", "caldav", "PROPFIND", "coll", "<", "text/plain"},
@@ -338,6 +347,14 @@ func davRequest(r *rt.Rand, server string, p davPaths) *Step {
 			st.Method, st.Target, st.Kind = rt.Pick(r, []string{"GET", "HEAD"}), rt.Pick(r, []string{p.obj, p.missingObj, p.coll}), "get"
 		case 7:
 			st.Method, st.Target, st.Kind = "DELETE", rt.Pick(r, []string{p.obj, p.missingObj, p.coll, p.home}), "delete"
+			if r.Chance(0.2) {
+				// any depth below the mount point, and paths the network may send
+				st.Method, st.Target = rt.Pick(r, []string{"DELETE", "MKCOL", "DELETE", "MKCOL", "PUT", "COPY", "MOVE"}), rt.Pick(r, []string{p.deeper, p.deeper + "/y", p.deeper + "/y/z/w", p.obj + strings.Repeat("/d", 9), p.any(r), p.any(r)})
+				st.Kind = "deep"
+				if st.Method == "COPY" || st.Method == "MOVE" {
+					st.set("Destination", p.newColl+"copied")
+				}
+			}
 		case 8:
 			st.Method, st.Target, st.Kind = "OPTIONS", p.any(r), "options"
 		case 9:
